@@ -161,6 +161,13 @@ fn explain_by_repair(e: &SyntaxError, text: &str, class: DocClass, crate_tree: &
                     if crate_shape(&p.doc) == *crate_tree {
                         return "lenient_keyword_prefix";
                     }
+                    // another defect may blur the tree; then it is enough that the crate itself reads
+                    // the glued and the split text as the same document
+                    if let CrateResult::Ok(cd2) = crate_parse(&repaired, class) {
+                        if cd2.to_r2() == *crate_tree {
+                            return "lenient_keyword_prefix";
+                        }
+                    }
                 }
             }
         }
@@ -257,6 +264,10 @@ fn report(run: &Hot, origin: &str, text: &str, class: DocClass, outcome: Outcome
         Outcome::Agree => run.count(&format!("{origin}_agree"), 1),
         Outcome::Skipped(why) => run.count(&format!("not_asserted:{why}"), 1),
         Outcome::Wrong(tag, what) => {
+            // debugging aid: VH_DEBUG_CLASS=<substring of the class tag> prints those cases in full
+            if std::env::var("VH_DEBUG_CLASS").is_ok_and(|c| tag.contains(&c)) {
+                eprintln!("DEBUG-CLASS {tag} {extra}\n  {what}\n  text: {text:?}");
+            }
             // one counter per attributed construct (a document can carry several)
             let (kind, tags) = tag.split_once('[').unwrap_or((&tag, ""));
             for t in tags.trim_end_matches(']').split('+') {
@@ -405,6 +416,8 @@ fn witnesses(run: &Run) {
             Outcome::Agree => run.count("witnesses_agree", 1),
             Outcome::Skipped(why) => run.count(&format!("witness_not_asserted:{why}"), 1),
             Outcome::Wrong(tag, what) => {
+                // the observation without the dump of the crate's tree: short and exact
+                let what = what.split("; crate tree:").next().unwrap_or(&what).to_string();
                 run.count("witnesses_wrong", 1);
                 if std::env::var("VH_PRINT_WITNESS_SIGS").is_ok() {
                     eprintln!("WITNESS-SIG\t{}\t{}\t{}", w.id, tag, vh_core::serde_json::to_string(&format!("{}|{}", w.id, what)).unwrap());
@@ -468,9 +481,11 @@ pub fn main() {
     run.assume("selection sets nested deeper than the documented limit of 64 are never generated");
     let feats = Features::from_run(&run);
     let cfg = feats.gen_config();
-    let docs = run.scale(20_000, 1_000_000);
+    // sized for ~2.5 min on an idle 16-core machine; under load the time budget ends the run earlier
+    let docs = run.scale(20_000, 3_000_000);
+    let budget_s = run.scale(45, 420) as f64;
     let mutants = 4u64;
-    run.set_floors(docs * 4, docs);
+    run.set_floors(run.scale(80_000, 2_000_000), run.scale(20_000, 500_000));
     run.set_max_samples(6);
     run.require_counter("gen_agree");
     run.require_counter("mutants_r2_rejects");
@@ -487,7 +502,12 @@ pub fn main() {
     let failed = sharded(shards, |shard| {
         let mut r = Rng::new(rng::mix(&[run.seed, 13, shard]));
         let hot = Hot::new(&run);
-        for _ in 0..docs / shards {
+        for i in 0..docs / shards {
+            // the machine is shared: stop at the time budget and report what was measured
+            if i % 64 == 0 && run.elapsed_s() > budget_s {
+                hot.count("shards_stopped_by_time_budget", 1);
+                break;
+            }
             one_document(&hot, &feats, &cfg, &mut r, mutants);
         }
     });
